@@ -64,16 +64,16 @@ def run(ctx, replay=None):
     ctx.log("runs: %d exported, %d deliver something" % (len(runs), nontrivial))
     path = ctx.write_ndjson("runs.ndjson", runs)
     _, outdir, _ = ctx.go_test("vt/c16", run="TestReplay$", env={"VERIF_SCRIPTS": path}, toolchain="go1.26", race=True,
-                               timeout=3000, name="c16replay")
+                               timeout=ctx.pick(900, 3000), name="c16replay")
     validate_traces(ctx, os.path.join(outdir, "traces.ndjson"), runs)
 
     # 3. code -> spec: randomly configured runs of the real code
     _, outdir, _ = ctx.go_test("vt/c16", run="TestTrace$", env={"VERIF_TRACES": ctx.pick(400, 4000)}, toolchain="go1.26",
-                               race=True, timeout=3000, name="c16trace")
+                               race=True, timeout=ctx.pick(900, 3000), name="c16trace")
     validate_traces(ctx, os.path.join(outdir, "traces.ndjson"), None)
 
     # 4. continuous mode started beyond the end of its range
-    ctx.go_test("vt/c16", run="TestBeyondTree$", toolchain="go1.26", race=True, timeout=3000, name="c16beyond")
+    ctx.go_test("vt/c16", run="TestBeyondTree$", toolchain="go1.26", race=True, timeout=900, name="c16beyond")
 
 
 def validate_traces(ctx, tr, runs):
